@@ -27,7 +27,7 @@ type vxC16Case struct {
 	Parallel bool  `json:"parallel"`
 	Delays   []int `json:"delaysMs"` // start delay of fan i relative to the previous start (-1 = when the previous fan finished its analysis)
 	Settle   []int `json:"settle"`   // per fan: 0 steady at once, 1 settles after 15 s, 2 after 40 s
-	Kinds    []int `json:"kinds"`    // per fan: 0 nothing stored, 1 nothing stored + pwmMap configured (no sweep, measurement only), 2 only the RPM curve stored (sweep only), 3 file fan (sweep only)
+	Kinds    []int `json:"kinds"`    // per fan: 0 nothing stored, 1 nothing stored + pwmMap configured (no sweep, measurement only), 2 only the RPM curve stored (sweep only), 3 file fan (sweep only), 4 everything stored (needs no analysis: a bystander that must not disturb the queue)
 	// RespDelay: fanResponseDelay in seconds (-1 = the default 2); 0 makes a whole analysis take ~13 s instead of ~9 min
 	RespDelay int `json:"respDelay"`
 	// CancelAtMs > 0: the controllers' context is cancelled at this time (shutdown request, or another actor of the daemon
@@ -93,6 +93,8 @@ func vxC16Exec(t *testing.T, c vxC16Case) (ivs []vxIv, fail [2]string) {
 					cfg.Stored, cfg.CurveOnly = true, true
 				case 3:
 					cfg.Kind = "file"
+				case 4:
+					cfg.Stored = true
 				}
 			}
 			w := vxRunBuild(cfg, fmt.Sprintf("fan%d", i), fs, fmt.Sprintf("hwmon%d", i), db, false)
@@ -241,6 +243,9 @@ func vxOverlap(ivs []vxIv) (int, int, bool) {
 	sort.Slice(s, func(i, j int) bool { return s[i].Start < s[j].Start })
 	for i := 0; i+1 < len(s); i++ {
 		for j := i + 1; j < len(s); j++ {
+			if s[i].Start < 0 || s[j].Start < 0 {
+				continue // a fan that was not analysed at all has no interval
+			}
 			if s[j].Start < s[i].End {
 				return s[i].Fan, s[j].Fan, true
 			}
@@ -266,12 +271,22 @@ func TestVX_C16(t *testing.T) {
 			desc += fmt.Sprintf(" fan%d:[%v..%v done=%v]", iv.Fan, iv.Start, iv.End, iv.Done)
 		}
 		rep.Outcome(c.String() + desc)
+		if os.Getenv("VERIF_REPLAY") != "" {
+			fmt.Println("C16 replay:", c.String(), "intervals:", desc)
+		}
 		if fail[0] != "" {
 			rep.Violate(mc.Violation{Signature: fail[0], Detail: fail[1] + "\ncase: " + c.String(), Replay: c})
 			return
 		}
-		for _, iv := range ivs {
+		for i, iv := range ivs {
 			if c.CancelAtMs > 0 {
+				continue
+			}
+			if i < len(c.Kinds) && c.Kinds[i] == 4 {
+				if !iv.Done {
+					rep.Violate(mc.Violation{Signature: "C16 an already analysed fan never started regulating", Detail: fmt.Sprintf("fan %d: %+v\ncase: %s\nintervals:%s", iv.Fan, iv, c, desc), Replay: c})
+					return
+				}
 				continue
 			}
 			if !iv.Done || iv.Start < 0 {
@@ -352,6 +367,17 @@ func TestVX_C16(t *testing.T) {
 	} else {
 		delaySet = []int{0, 3, 1400, -1}
 		gen(3, nil, nil, 2)
+	}
+	// an already analysed fan starts while one fan is analysed and another one is queued: it must not disturb the queue
+	for _, kinds := range [][]int{{0, 0, 4}, {0, 4, 0}, {4, 0, 0}, {0, 2, 4}, {0, 3, 4}, {0, 0, 0, 4}} {
+		for _, d := range []int{0, 1, 3000, 8000} {
+			delays := make([]int, len(kinds)-1)
+			for i := range delays {
+				delays[i] = 1
+			}
+			delays[len(delays)-1] = d
+			cases = append(cases, vxC16Case{Parallel: false, Delays: delays, Settle: make([]int, len(kinds)), Kinds: kinds, RespDelay: 0})
+		}
 	}
 	// shutdown request while one fan is analysed and others are queued (short analyses: fanResponseDelay 0)
 	for _, kinds := range [][]int{{0, 0}, {0, 2}, {0, 3}, {2, 0}, {0, 0, 0}, {0, 2, 3}} {
